@@ -28,13 +28,16 @@ REQUIRED_THEOREMS = [
     # round 2
     "copy_switches", "copy_isolated", "conn_own_run", "legacy_copy_shares_connectivity", "merge_pointcloud_first",
     "rotate_about_origin", "scale_xyz_round_trip", "scale_xyz_default_origin", "wfx_run",
+    # round 3: translated fragments of transform.py / merge, histories on one object
+    "gen_translate_eq", "gen_scale_eq", "gen_rotate_eq", "gen_scaleXyz_eq", "gen_normalize_eq", "gen_merge_eq",
+    "transform_twice", "copy_of_copy", "merge_with_own_copy",
 ]
 TRUSTED = [
     "Lean 4.33.0 kernel; axioms ⊆ {propext, Classical.choice, Quot.sound}",
     "hand-written model Mouette/Model/MeshHeap.lean (heap of Rat^3 cells, meshes = lists of references; rebinding vs in-place "
     "update) tied to mesh.py copy/merge and geometry/transform.py by the whole-state correspondence of this run: every mesh "
     "is observed after every operation",
-    "floating point: coordinates compared to the exact rational answer with |impl - exact| <= 1e-9*scale + 1e-12; "
+    "floating point: coordinates compared to the exact rational answer with |impl - exact| <= 1e-9*scale + 1e-12 (2e-6*scale when binary32 vertex arrays or parameters are involved); "
     "scipy Rotation.from_matrix on rational orthogonal matrices is trusted to apply that matrix",
     "numpy view/copy rules observed from outside (np.shares_memory, values of every mesh after every op)",
     "element lists of base meshes are those of the prepared mesh (prepare belongs to C02)",
@@ -44,7 +47,11 @@ ASSUMPTIONS = [
     "producers (procedural generators, loaders, boundary extraction) are monitored for alias-freedom, not modelled",
     "normalize is only exercised on meshes whose bounding box is not a point",
 ]
-RULE = ("[round 2: copy with copy_attributes / copy_connectivity switches on meshes carrying a vertex attribute (then edited on "
+RULE = ("[round 3: parameters offered as int / float Vec, tuples, lists, numpy int32/int64/float32 arrays and numpy scalars, a "
+        "vertex OBJECT of the mesh itself as translation vector / origin, rotations as matrix / scipy Rotation / Euler quarter "
+        "turns (list, tuple); vertex arrays float32 / int32 / Fortran-ordered / strided / read-only / tuples / ndarray rows; the same "
+        "transform twice, copies of copies, merge of a mesh with its own copy / with itself; parameter objects compared by value "
+        "after the call] [round 2: copy with copy_attributes / copy_connectivity switches on meshes carrying a vertex attribute (then edited on "
         "either side), merges of mixed kinds with a point cloud first, rotations about origins != 0, scale_xyz with negative "
         "factors; attribute rows and connectivity-handler identity observed for every mesh after every op] random histories (<= 9 ops quick / <= 16 thorough) over up to 5 small meshes (point clouds, polylines, triangle/quad "
         "surfaces, tets; float/int dtype; raw lists or from_arrays): copy, merge (with repeated inputs), translate, scale, "
@@ -65,6 +72,66 @@ def _F(s):
 def _vec(t):
     import mouette as M
     return M.Vec(*[float(Fraction(x)) for x in t])
+
+
+def _opt(op):
+    """optional trailing dict of an op: how the parameters are REPRESENTED when handed to the library (round 3)"""
+    return op[-1] if isinstance(op[-1], dict) else {}
+
+
+def _integral(t):
+    return all(Fraction(x).denominator == 1 for x in t)
+
+
+def _mkvec(t, rep, mesh=None):
+    """a 3-vector parameter in the requested representation (values are always those of `t`)"""
+    import numpy as np
+    import mouette as M
+    vals = [Fraction(x) for x in t]
+    ints = all(v.denominator == 1 for v in vals)
+    if rep and rep.startswith("vertex:"): return mesh.vertices[int(rep.split(":")[1])]      # the stored object itself
+    if rep == "ivec" and ints: return M.Vec(*[int(v) for v in vals])
+    if rep == "nd_int" and ints: return np.array([int(v) for v in vals], dtype=np.int64)
+    if rep == "nd_i32" and ints: return np.array([int(v) for v in vals], dtype=np.int32)
+    if rep == "nd_f32" and all(Fraction(float(np.float32(float(v)))) == v for v in vals):      # only when exact in binary32
+        return np.array([float(v) for v in vals], dtype=np.float32)
+    if rep == "nd": return np.array([float(v) for v in vals])
+    if rep == "tuple": return tuple(int(v) if ints else float(v) for v in vals)
+    if rep == "list": return [int(v) if ints else float(v) for v in vals]
+    return M.Vec(*[float(v) for v in vals])
+
+
+def _mkscalar(x, rep):
+    import numpy as np
+    f = Fraction(x)
+    if rep == "int" and f.denominator == 1: return int(f)
+    if rep == "np_int" and f.denominator == 1: return np.int64(int(f))
+    if rep == "np_i32" and f.denominator == 1: return np.int32(int(f))
+    if rep == "np_f32" and Fraction(float(np.float32(float(f)))) == f: return np.float32(float(f))
+    if rep == "np_f64": return np.float64(float(f))
+    return float(f)
+
+
+def _quarter(axis, q):
+    c, s_ = [(1, 0), (0, 1), (-1, 0), (0, -1)][q % 4]
+    if axis == 0: return [[1, 0, 0], [0, c, -s_], [0, s_, c]]
+    if axis == 1: return [[c, 0, s_], [0, 1, 0], [-s_, 0, c]]
+    return [[c, -s_, 0], [s_, c, 0], [0, 0, 1]]
+
+
+def _euler_matrix(q):
+    """scipy `from_euler("xyz", angles)` (extrinsic x, then y, then z) for quarter turns: Rz . Ry . Rx, exactly"""
+    return _matmul(_quarter(2, q[2]), _matmul(_quarter(1, q[1]), _quarter(0, q[0])))
+
+
+def _snap(obj):
+    import numpy as np
+    try: return np.array(obj, dtype=float).copy()
+    except Exception: return None  # noqa
+
+
+class _ParamChanged(Exception):
+    pass
 
 
 ROT_ATOMS = [  # rational orthogonal matrices with det +1
@@ -92,6 +159,11 @@ def _build(via, V, E, F, C):
     if via.startswith("from_arrays"):
         dt = int if via.endswith("int") else float
         arr = np.array([[dt(Fraction(x)) for x in row] for row in V], dtype=dt).reshape(-1, 3)
+        if via == "from_arrays_f32": arr = arr.astype(np.float32)
+        if via == "from_arrays_i32": arr = np.array([[int(Fraction(x)) for x in row] for row in V], dtype=np.int32).reshape(-1, 3)
+        if via == "from_arrays_fortran": arr = np.asfortranarray(arr)
+        if via == "from_arrays_strided": arr = np.array([[float(Fraction(x)) for x in row for _ in (0, 1)] for row in V]).reshape(-1, 6)[:, ::2]   # non-contiguous view
+        if via == "from_arrays_readonly": arr.flags.writeable = False
         kw = {}
         if E: kw["E"] = np.array(E)
         if F: kw["F"] = np.array(F)
@@ -99,7 +171,10 @@ def _build(via, V, E, F, C):
         return from_arrays(arr, **kw), arr
     r = RawMeshData()
     conv = (lambda x: int(Fraction(x))) if via == "raw_int" else (lambda x: float(Fraction(x)))
-    for row in V: r.vertices.append([conv(x) for x in row])
+    for row in V:
+        if via == "raw_tuple": r.vertices.append(tuple(conv(x) for x in row))
+        elif via == "raw_nd": r.vertices.append(np.array([conv(x) for x in row]))
+        else: r.vertices.append([conv(x) for x in row])
     for e in E: r.edges.append(tuple(e))
     for f in F: r.faces.append(tuple(f))
     for c in C: r.cells.append(tuple(c))
@@ -189,14 +264,37 @@ def _apply(meshes, arrays, op):
             r = meshes[op[1]].vertices.get_attribute("w")[op[2]]
             r[op[3]] = float(Fraction(op[4]))
         elif k == "merge": meshes.append(merge([meshes[i] for i in op[1]]))
-        elif k == "translate": T.translate(meshes[op[1]], _vec(op[2]))
-        elif k == "scale": T.scale(meshes[op[1]], float(Fraction(op[2])), None if op[3] is None else _vec(op[3]))
-        elif k == "scalexyz":
-            T.scale_xyz(meshes[op[1]], float(Fraction(op[2])), float(Fraction(op[3])), float(Fraction(op[4])),
-                        None if op[5] is None else _vec(op[5]))
-        elif k == "rotate":
-            R = np.array([[float(Fraction(x)) for x in row] for row in op[2]])
-            T.rotate(meshes[op[1]], R, None if op[3] is None else _vec(op[3]))
+        elif k in ("translate", "scale", "scalexyz", "rotate"):
+            o_ = _opt(op); m = meshes[op[1]]
+            held = []                       # parameter objects the caller keeps: must hold the same VALUES afterwards
+
+            def vecp(t, rep):
+                v = _mkvec(t, rep, m); held.append((v, _snap(v))); return v
+            if k == "translate":
+                T.translate(m, vecp(op[2], o_.get("tr")))
+            elif k == "scale":
+                T.scale(m, _mkscalar(op[2], o_.get("f")), None if op[3] is None else vecp(op[3], o_.get("orig")))
+            elif k == "scalexyz":
+                fr = o_.get("f")
+                T.scale_xyz(m, _mkscalar(op[2], fr), _mkscalar(op[3], fr), _mkscalar(op[4], fr),
+                            None if op[5] is None else vecp(op[5], o_.get("orig")))
+            else:
+                rr = o_.get("rot", "matrix")
+                if rr.startswith("euler"):
+                    import math
+                    ang = [q * math.pi / 2 for q in o_["euler"]]
+                    R = ang if rr == "euler_list" else tuple(ang)
+                else:
+                    R = np.array([[float(Fraction(x)) for x in row] for row in op[2]])
+                    if rr == "rotation":
+                        from scipy.spatial.transform import Rotation
+                        R = Rotation.from_matrix(R)
+                    else: held.append((R, R.copy()))
+                T.rotate(m, R, None if op[3] is None else vecp(op[3], o_.get("orig")))
+            for obj, before in held:
+                after = _snap(obj)
+                if before is not None and (after is None or after.shape != before.shape or not np.array_equal(after, before)):
+                    raise _ParamChanged()
         elif k == "flatten": T.flatten(meshes[op[1]], op[2])
         elif k == "normalize": T.normalize(meshes[op[1]], center_at_zero=bool(op[2]))
         elif k == "toorigin": T.translate_to_origin(meshes[op[1]])
@@ -204,7 +302,7 @@ def _apply(meshes, arrays, op):
         else: raise ValueError(k)
     except Exception as e:  # noqa
         n = type(e).__name__
-        return {"IndexError": "err:Index", "ValueError": "err:Value", "TypeError": "err:Type"}.get(n, f"err:Other({n})")
+        return {"IndexError": "err:Index", "ValueError": "err:Value", "TypeError": "err:Type", "_ParamChanged": "err:ParamChanged"}.get(n, f"err:Other({n})")
     return None
 
 
@@ -261,13 +359,26 @@ def model_request(case):
     return " ".join(toks)
 
 
+_REL = [1e-9]      # relative tolerance of the current case (binary32 coordinates: 2e-6)
+
+
+def _set_tol(case):
+    f32 = case.get("t") == "script" and any(
+        (op[0] == "new" and op[1] == "from_arrays_f32") or any(v == "nd_f32" or v == "np_f32" for v in _opt(op).values() if isinstance(v, str))
+        for op in case["ops"])
+    _REL[0] = 2e-6 if f32 else 1e-9
+
+
 def _close(a, b, scale):
+    if _REL[0] != 1e-9:
+        return abs(a - b) <= _REL[0] * scale + 1e-12
     return abs(a - b) <= 1e-9 * scale + 1e-12
 
 
 def compare(case, model, impl):
     if case["t"] != "script":
         return None
+    _set_tol(case)
     mr, ir = model.split(" | "), impl.split(" | ")
     if len(mr) != len(ir):
         return f"model rejected the request or record count differs: {model[:80]}"
@@ -392,6 +503,7 @@ def _alias_pairs(meshes, arrays):
 
 
 def _oracle_script(case):
+    _set_tol(case)
     out = []
     meshes, arrays, sh = [], [], []
     creator = {}          # mesh index -> op kind that produced it
@@ -636,7 +748,7 @@ def _rotation(rng):
 def _script(rng, maxops):
     ops, nv, flat = [], [], []      # nv[i] = vertex count; flat[i] = bbox may be degenerate in some direction (fine) / point
     n_ops = rng.randint(3, maxops)
-    has_w, kinds, pending_now = [], [], []
+    has_w, kinds, pending_now, copies = [], [], [], []
 
     def add_base(force=None):
         b = _base_mesh(rng) if force is None else _base_mesh_kind(rng, force)
@@ -674,13 +786,16 @@ def _script(rng, maxops):
                 ops.append(["copyx", i, rng.random() < 0.5, rng.random() < 0.6]); has_w.append(has_w[i] and ops[-1][2])
             else:
                 ops.append(["copy", i, False]); has_w.append(False)
-            nv.append(nv[i]); kinds.append(kinds[i])
+            nv.append(nv[i]); kinds.append(kinds[i]); copies.append((i, len(nv) - 1))
             if has_w[-1] and rng.random() < 0.7:        # ... then edit the copy's (or the source's) attribute
                 tgt = rng.choice([len(nv) - 1, i])
                 pending_now.append(["eattr", tgt, rng.randrange(nv[tgt]), rng.randrange(3), _dy(rng)])
         elif r < 0.40 and len(nv) < 5:
             ids = [rng.randrange(len(nv)) for _ in range(rng.randint(1, 3))]
             if rng.random() < 0.35: ids.append(ids[0])
+            cp = [(a, b) for a, b in copies if True]
+            if cp and rng.random() < 0.3:      # a mesh merged with its own copy (and with itself)
+                a, b = rng.choice(cp); ids = [a, b] + ([a] if rng.random() < 0.3 else [])
             pcs = [j for j in range(len(nv)) if kinds[j] == 0]
             if pcs and rng.random() < 0.5:      # mixed kinds: a point cloud FIRST, its vertices must count in the running offset
                 ids = [rng.choice(pcs)] + [j for j in ids if kinds[j] != 0][:2]
@@ -690,6 +805,7 @@ def _script(rng, maxops):
         elif r < 0.58:
             t = [_dy(rng, -8, 8) for _ in range(3)]
             ops.append(["translate", i, t])
+            if rng.random() < 0.25: pending_now.append(["translate", i, list(t)])       # ... and once more
             if rng.random() < 0.4: pending.append(["translate", i, [_fr(-Fraction(x)) for x in t]])
         elif r < 0.68:
             s = rng.choice(["2", "1/2", "-1", "3", "1/4", "-2", "3/2"]); o = opt_orig()
@@ -706,7 +822,62 @@ def _script(rng, maxops):
         elif r < 0.97: ops.append(["edit", i, rng.randrange(nv[i]), rng.randrange(3), str(rng.randint(-4, 4))])   # integer: valid for int dtype too
         else: ops.append(["normalize", i, rng.random() < 0.5])
     case = {"t": "script", "ops": ops}
-    return _drop_degenerate_normalize(case)
+    return _drop_degenerate_normalize(_decorate(rng, _drop_degenerate_normalize(case)))
+
+
+VEC_REPS = ["vec", "vec", "tuple", "list", "nd", "nd_f32"]
+INT_REPS = ["ivec", "ivec", "nd_int", "nd_i32", "tuple", "list"]
+SCALAR_REPS = ["float", "float", "np_f32", "np_f64"]
+INT_SCALAR_REPS = ["int", "int", "np_int", "np_i32", "float"]
+
+
+def _decorate(rng, case):
+    """round 3: vary HOW inputs are represented (same values): int / float / numpy vectors, tuples, lists, numpy scalars,
+    Euler-angle rotations, scipy Rotation objects, a vertex OBJECT of the mesh itself as parameter, vertex arrays of other
+    dtypes / memory layouts. The model and the shadow only see the values."""
+    sh, ops = [], []
+    for op in case["ops"]:
+        op = list(op)
+        k = op[0]
+        if k == "new":
+            v = op[1]
+            if v == "from_arrays" and rng.random() < 0.45: op[1] = rng.choice(["from_arrays_f32", "from_arrays_fortran", "from_arrays_strided", "from_arrays_readonly"])
+            elif v == "from_arrays_int" and rng.random() < 0.4: op[1] = "from_arrays_i32"
+            elif v == "raw" and rng.random() < 0.3: op[1] = rng.choice(["raw_tuple", "raw_nd"])
+        elif k in ("translate", "scale", "scalexyz", "rotate"):
+            i = op[1]; nv = len(sh[i]["V"]); d = {}
+
+            def vec_rep(t, allow_vertex=True):
+                r = rng.random()
+                if allow_vertex and r < 0.10:
+                    j = rng.randrange(nv)
+                    return [_fr(x) for x in sh[i]["V"][j]], f"vertex:{j}"
+                if r < 0.35:      # integer-valued parameter in an integer representation
+                    t = [str(round(Fraction(x))) for x in t]
+                    return t, rng.choice(INT_REPS)
+                return t, rng.choice(VEC_REPS)
+            if k == "translate":
+                op[2], d["tr"] = vec_rep(op[2])
+            elif k == "scale":
+                if op[3] is not None: op[3], d["orig"] = vec_rep(op[3])
+                d["f"] = rng.choice(INT_SCALAR_REPS if Fraction(op[2]).denominator == 1 else SCALAR_REPS)
+            elif k == "scalexyz":
+                if op[5] is not None:       # scale_xyz reads orig.x/.y/.z: documented as a Vec, so only Vec objects are offered
+                    op[5], d["orig"] = vec_rep(op[5])
+                    if not (d["orig"].startswith("vertex") or d["orig"] in ("vec", "ivec")): d["orig"] = "vec"
+                d["f"] = rng.choice(INT_SCALAR_REPS if all(Fraction(x).denominator == 1 for x in op[2:5]) else SCALAR_REPS)
+            else:
+                if op[3] is not None: op[3], d["orig"] = vec_rep(op[3])
+                r = rng.random()
+                if r < 0.25:
+                    q = [rng.randrange(4) for _ in range(3)]
+                    op[2] = [[str(x) for x in row] for row in _euler_matrix(q)]
+                    d["rot"] = rng.choice(["euler_list", "euler_tuple"]); d["euler"] = q
+                elif r < 0.45: d["rot"] = "rotation"
+                else: d["rot"] = "matrix"
+            op = [x for x in op if not isinstance(x, dict)] + [d]
+        _shadow_apply(sh, op); ops.append(op)
+    return dict(case, ops=ops)
 
 
 def _drop_degenerate_normalize(case):
@@ -747,7 +918,7 @@ def classify(case, obs):
     if case["t"] != "script": return ["producer:" + case["name"] + (":skipped" if "skip" in obs else "")]
     ks = ["op:" + op[0] + ("/" + op[1] if op[0] == "new" else "") for op in case["ops"]]
     ks += ["merge:repeated-input" for op in case["ops"] if op[0] == "merge" and len(set(op[1])) < len(op[1])]
-    dims, sh = [], []
+    dims, sh, cps, seen_t, vint = [], [], {}, set(), {}
     for op in case["ops"]:
         if op[0] == "new": dims.append(3 if op[5] else 2 if op[4] else 1 if op[3] else 0)
         elif op[0] in ("copy", "copyx"): dims.append(dims[op[1]])
@@ -756,6 +927,27 @@ def classify(case, obs):
             if len({dims[j] for j in op[1]}) > 1: ks.append("merge:mixed-kinds")
             dims.append(max(dims[j] for j in op[1]))
         if op[0] == "copyx": ks.append(f"copyx:attrs={int(bool(op[2]))}/conn={int(bool(op[3]))}")
+        if op[0] in ("copy", "copyx"):
+            if op[1] in cps: ks.append("copy:of-a-copy")
+            cps[len(dims) - 1] = op[1]
+        if op[0] == "merge":
+            if len(set(op[1])) < len(op[1]): pass
+            if any(cps.get(b) == a or cps.get(a) == b for a in op[1] for b in op[1]): ks.append("merge:with-own-copy")
+        if op[0] in ("translate", "scale", "scalexyz", "rotate", "flatten", "normalize", "toorigin"):
+            if (op[0], op[1]) in seen_t: ks.append(f"twice:{op[0]}")
+            seen_t.add((op[0], op[1]))
+            o_ = _opt(op)
+            for kk in ("tr", "orig", "f", "rot"):
+                if kk in o_: ks.append(f"rep:{kk}={o_[kk].split(':')[0]}")
+            if op[0] == "translate":
+                ti = _integral(op[2]); vi = vint.get(op[1], False)
+                if ti and not vi and o_.get("tr") in INT_REPS: ks.append("rep:int-translation/float-vertices")
+                if vi and not ti: ks.append("rep:float-translation/int-vertices")
+            if op[0] != "flatten": vint[op[1]] = False
+        if op[0] == "new":
+            ks.append("rep:verts=" + op[1]); vint[len(dims) - 1] = op[1] in ("raw_int", "from_arrays_int", "from_arrays_i32")
+        elif op[0] in ("copy", "copyx"): vint[len(dims) - 1] = vint.get(op[1], False)
+        elif op[0] == "merge": vint[len(dims) - 1] = all(vint.get(j, False) for j in op[1])
         if op[0] == "rotate" and op[3] is not None: ks.append("rotate:origin!=0")
         if op[0] == "scalexyz" and any(str(f).startswith("-") for f in op[2:5]): ks.append("scalexyz:negative-factor")
     ks += ["err" for r in obs.split(" | ") if r.startswith("err")]
@@ -787,6 +979,213 @@ def shrink(case, still):
         if valid(trial) and trial and still(dict(case, ops=trial)): ops = trial
         i -= 1
     return dict(case, ops=ops)
+
+
+# ------------------------------------------------------------------------------------------------
+# translated fragments (round 3): the per-vertex expressions and the loop shapes of transform.py, normalize, merge
+# ------------------------------------------------------------------------------------------------
+TRANSFORM_FILE = "mouette/geometry/transform.py"
+MESH_FILE = "mouette/mesh/mesh.py"
+
+
+def _is_vertex_i(node):
+    """mesh.vertices[i]"""
+    import ast
+    return (isinstance(node, ast.Subscript) and isinstance(node.value, ast.Attribute) and node.value.attr == "vertices"
+            and isinstance(node.value.value, ast.Name) and node.value.value.id == "mesh"
+            and isinstance(node.slice, ast.Name) and node.slice.id == "i")
+
+
+def _vexpr(node, names):
+    """vector expression over mesh.vertices[i] (p) and parameter names -> Lean V3 term; refuses anything else"""
+    import ast
+    from .. import translate as T
+    if _is_vertex_i(node): return "p"
+    if isinstance(node, ast.Name) and node.id in names: return names[node.id]
+    if isinstance(node, ast.BinOp) and isinstance(node.op, ast.Add): return f"(({_vexpr(node.left, names)}).add ({_vexpr(node.right, names)}))"
+    if isinstance(node, ast.BinOp) and isinstance(node.op, ast.Sub): return f"(({_vexpr(node.left, names)}).sub ({_vexpr(node.right, names)}))"
+    if isinstance(node, ast.BinOp) and isinstance(node.op, ast.Mult):
+        if isinstance(node.left, ast.Name) and node.left.id in names and names[node.left.id] in ("k",):
+            return f"(V3.smul k ({_vexpr(node.right, names)}))"
+        raise T.TranslateError("only <scalar factor> * <vector> is understood")
+    if isinstance(node, ast.UnaryOp) and isinstance(node.op, ast.USub): return f"(({_vexpr(node.operand, names)}).neg)"
+    if isinstance(node, ast.Call) and isinstance(node.func, ast.Name) and node.func.id == "Vec" and len(node.args) == 1:
+        return _vexpr(node.args[0], names)        # Vec(x): same value
+    if isinstance(node, ast.Call) and isinstance(node.func, ast.Attribute) and node.func.attr == "apply" \
+            and isinstance(node.func.value, ast.Name) and node.func.value.id == "rot" and len(node.args) == 1:
+        return f"(r.apply ({_vexpr(node.args[0], names)}))"
+    if isinstance(node, ast.Call) and isinstance(node.func, ast.Name) and node.func.id == "Vec" and len(node.args) == 3:
+        return "(⟨" + ", ".join(_sexpr(a, names) for a in node.args) + "⟩ : V3)"
+    raise T.TranslateError(f"vector expression not understood: {ast.dump(node)[:90]}")
+
+
+def _sexpr(node, names):
+    """scalar expression over components (Pi.x, orig.x, fx …) -> Lean Rat term"""
+    import ast
+    from .. import translate as T
+    if isinstance(node, ast.Name) and node.id in ("fx", "fy", "fz"): return node.id
+    if isinstance(node, ast.Attribute) and node.attr in ("x", "y", "z") and isinstance(node.value, ast.Name) and node.value.id in names:
+        return f"{names[node.value.id]}.{node.attr}"
+    if isinstance(node, ast.BinOp) and type(node.op) in (ast.Add, ast.Sub, ast.Mult):
+        o = {ast.Add: "+", ast.Sub: "-", ast.Mult: "*"}[type(node.op)]
+        return f"({_sexpr(node.left, names)} {o} {_sexpr(node.right, names)})"
+    raise T.TranslateError(f"scalar expression not understood: {ast.dump(node)[:90]}")
+
+
+def _vertex_loop(fn):
+    """the `for i in mesh.id_vertices:` loop of a transform; returns its body statements"""
+    import ast
+    from .. import translate as T
+    loops = [st for st in fn.body if isinstance(st, ast.For)]
+    if len(loops) != 1: raise T.TranslateError(f"{fn.name}: expected exactly one loop, found {len(loops)}")
+    lp = loops[0]
+    ok = (isinstance(lp.target, ast.Name) and lp.target.id == "i" and isinstance(lp.iter, ast.Attribute) and lp.iter.attr == "id_vertices"
+          and isinstance(lp.iter.value, ast.Name) and lp.iter.value.id == "mesh" and not lp.orelse)
+    if not ok: raise T.TranslateError(f"{fn.name}: loop is not `for i in mesh.id_vertices`")
+    return lp.body
+
+
+def _rebinding(fn, names, pre=None):
+    """the loop body must be ONE plain assignment `mesh.vertices[i] = <expr>` (a rebinding: not `+=`, not an item
+    assignment into the stored vector); optional local alias `Pi = mesh.vertices[i]`"""
+    import ast
+    from .. import translate as T
+    body = list(_vertex_loop(fn))
+    names = dict(names)
+    if pre and len(body) == 2 and isinstance(body[0], ast.Assign) and isinstance(body[0].targets[0], ast.Name) \
+            and body[0].targets[0].id == pre and _is_vertex_i(body[0].value):
+        names[pre] = "p"; body = body[1:]
+    if len(body) != 1 or not isinstance(body[0], ast.Assign) or len(body[0].targets) != 1 or not _is_vertex_i(body[0].targets[0]):
+        raise T.TranslateError(f"{fn.name}: the loop body is not a single rebinding `mesh.vertices[i] = <expr>` "
+                               f"({'in-place update' if body and isinstance(body[0], ast.AugAssign) else 'other shape'})")
+    return _vexpr(body[0].value, names)
+
+
+def _default_orig(fn, want):
+    """`if orig is None: orig = <want>`"""
+    import ast
+    from .. import translate as T
+    for st in fn.body:
+        if isinstance(st, ast.If) and isinstance(st.test, ast.Compare) and isinstance(st.test.left, ast.Name) and st.test.left.id == "orig" \
+                and isinstance(st.test.ops[0], ast.Is) and isinstance(st.test.comparators[0], ast.Constant) and st.test.comparators[0].value is None:
+            if len(st.body) == 1 and isinstance(st.body[0], ast.Assign) and ast.unparse(st.body[0].value).replace(" ", "") == want:
+                return want
+    raise T.TranslateError(f"{fn.name}: default origin `{want}` not recognised")
+
+
+def translate():
+    import ast
+    from .. import translate as T
+    sites, chunks = [], {}
+
+    def tr_translate():
+        tree, _ = T.load(TRANSFORM_FILE)
+        e = _rebinding(T.find_def(tree, "translate"), {"tr": "t"})
+        chunks["translate"] = f"/-- `translate`: `mesh.vertices[i] = …` (rebinding) -/\ndef translateExpr (p t : V3) : V3 := {e}\n"
+        return e
+    sites.append(T.site("transform.py:translate loop body", tr_translate))
+
+    def tr_scale():
+        tree, _ = T.load(TRANSFORM_FILE)
+        fn = T.find_def(tree, "scale")
+        e = _rebinding(fn, {"orig": "o", "factor": "k"}); _default_orig(fn, "Vec.zeros(3)")
+        chunks["scale"] = f"/-- `scale` (default origin `Vec.zeros(3)`) -/\ndef scaleExpr (k : Rat) (o p : V3) : V3 := {e}\n"
+        return e
+    sites.append(T.site("transform.py:scale loop body", tr_scale))
+
+    def tr_rotate():
+        tree, _ = T.load(TRANSFORM_FILE)
+        fn = T.find_def(tree, "rotate")
+        e = _rebinding(fn, {"orig": "o"}); _default_orig(fn, "Vec.zeros(3)")
+        chunks["rotate"] = f"/-- `rotate` (default origin `Vec.zeros(3)`) -/\ndef rotateExpr (r : M3) (o p : V3) : V3 := {e}\n"
+        return e
+    sites.append(T.site("transform.py:rotate loop body", tr_rotate))
+
+    def tr_scalexyz():
+        tree, _ = T.load(TRANSFORM_FILE)
+        fn = T.find_def(tree, "scale_xyz")
+        e = _rebinding(fn, {"orig": "o"}, pre="Pi"); _default_orig(fn, "mesh.vertices[0]")
+        chunks["scalexyz"] = f"/-- `scale_xyz` (default origin: the first vertex) -/\ndef scaleXyzExpr (fx fy fz : Rat) (o p : V3) : V3 := {e}\n"
+        return e
+    sites.append(T.site("transform.py:scale_xyz loop body", tr_scalexyz))
+
+    def tr_normalize():
+        tree, _ = T.load(TRANSFORM_FILE)
+        fn = T.find_def(tree, "normalize")
+        body = [st for st in fn.body if not (isinstance(st, ast.Expr) and isinstance(st.value, ast.Constant))]
+        src = [ast.unparse(st).replace(" ", "") for st in body]
+        want0 = "bounding=AABB.of_mesh(mesh)"; want1 = "sc=1/np.max(bounding.span)"
+        if len(body) != 3 or src[0] != want0 or src[1] != want1 or not isinstance(body[2], ast.If):
+            raise T.TranslateError("normalize: expected `bounding = AABB.of_mesh(mesh); sc = 1/np.max(bounding.span); if center_at_zero: … else: …`")
+        iff = body[2]
+        if ast.unparse(iff.test) != "center_at_zero" or len(iff.body) != 1 or len(iff.orelse) != 1:
+            raise T.TranslateError("normalize: branch structure not recognised")
+
+        def branch(st):
+            # return scale(translate(mesh, -bounding.<anchor>), <mult>*sc | sc)
+            if not (isinstance(st, ast.Return) and isinstance(st.value, ast.Call) and getattr(st.value.func, "id", None) == "scale" and len(st.value.args) == 2):
+                raise T.TranslateError("normalize: branch is not `return scale(translate(mesh, -bounding.X), f)`")
+            inner, fac = st.value.args
+            if not (isinstance(inner, ast.Call) and getattr(inner.func, "id", None) == "translate" and len(inner.args) == 2
+                    and ast.unparse(inner.args[0]) == "mesh" and isinstance(inner.args[1], ast.UnaryOp) and isinstance(inner.args[1].op, ast.USub)
+                    and isinstance(inner.args[1].operand, ast.Attribute) and ast.unparse(inner.args[1].operand.value) == "bounding"):
+                raise T.TranslateError("normalize: inner call is not `translate(mesh, -bounding.X)`")
+            anchor = inner.args[1].operand.attr
+            if anchor not in ("center", "mini"): raise T.TranslateError(f"normalize: unknown anchor {anchor}")
+            f = ast.unparse(fac).replace(" ", "")
+            mult = {"2*sc": 2, "sc*2": 2, "sc": 1}.get(f)
+            if mult is None: raise T.TranslateError(f"normalize: scale factor `{f}` not understood")
+            return anchor, mult
+        (a1, m1), (a0, m0) = branch(iff.body[0]), branch(iff.orelse[0])
+        chunks["normalize"] = ("/-- `normalize`: (anchor subtracted, multiplier of `1/max span`) per value of `center_at_zero` -/\n"
+                               "inductive Anchor | center | mini\n  deriving DecidableEq, Repr\n"
+                               f"def normalizeSpec : Bool → Anchor × Rat\n  | true => (.{a1}, {m1})\n  | false => (.{a0}, {m0})\n")
+        return f"centered: -{a1}, {m1}*sc; else: -{a0}, {m0}*sc"
+    sites.append(T.site("transform.py:normalize", tr_normalize))
+
+    def tr_merge():
+        tree, _ = T.load(MESH_FILE)
+        fn = T.find_def(tree, "merge")
+        loops = [st for st in fn.body if isinstance(st, ast.For)]
+        if len(loops) != 1: raise T.TranslateError("merge: expected one loop")
+        body = loops[0].body
+        var = loops[0].target.id
+        # 1. vertices are copied
+        s0 = ast.unparse(body[0]).replace(" ", "")
+        if s0 != f"merged.vertices+=[np.array(v)forvin{var}.vertices]":
+            raise T.TranslateError(f"merge: first statement is not the copying vertex extension: {s0[:80]}")
+        # 2. the element blocks: `if hasattr(m, kind): merged.kind += [tuple((vertex_offset+u for u in e)) for e in m.kind]`
+        kinds = []
+        for st in body[1:-1]:
+            if not (isinstance(st, ast.If) and len(st.body) == 1 and not st.orelse):
+                raise T.TranslateError(f"merge: unexpected statement in the loop: {ast.unparse(st)[:60]}")
+            t = ast.unparse(st.test).replace(" ", "").replace('"', "'")
+            kind = t[len(f"hasattr({var},'"):-2]
+            want = f"merged.{kind}+=[tuple((vertex_offset+uforuinx))forxin{var}.{kind}]"
+            got = ast.unparse(st.body[0]).replace(" ", "")
+            import re
+            got_n = re.sub(r"foruin(\w+)\)\)for\1in", "foruinx))forxin", got)
+            if t != f"hasattr({var},'{kind}')" or got_n != want:
+                raise T.TranslateError(f"merge: element block for `{kind}` not recognised: {got[:80]}")
+            kinds.append(kind)
+        if kinds != ["edges", "faces", "cells"]: raise T.TranslateError(f"merge: element kinds {kinds}")
+        # 3. the running offset advances by the number of vertices of EVERY input, after its elements were shifted
+        last = ast.unparse(body[-1]).replace(" ", "")
+        if last != f"vertex_offset+=len({var}.vertices)":
+            raise T.TranslateError(f"merge: last statement of the loop is not the unconditional offset update: {last[:60]}")
+        chunks["merge"] = ("/-- `merge`: index shift applied to every element index, offset update per input -/\n"
+                           "def mergeShift (vertex_offset u : Nat) : Nat := vertex_offset + u\n"
+                           "def mergeOffsetAfter (vertex_offset nverts : Nat) : Nat := vertex_offset + nverts\n"
+                           "def mergeElementKinds : List String := [\"edges\", \"faces\", \"cells\"]\n")
+        return "vertices copied; edges/faces/cells shifted by vertex_offset; offset += len(vertices) unconditionally, last"
+    sites.append(T.site("mesh.py:merge loop", tr_merge))
+
+    if all(st["ok"] for st in sites):
+        body = ("import Mouette.Model.MeshHeap\nnamespace Mouette.Generated.C06\nopen Mouette.MeshHeap\n\n"
+                + "\n".join(chunks[k] for k in ("translate", "scale", "rotate", "scalexyz", "normalize", "merge"))
+                + "\nend Mouette.Generated.C06\n")
+        T.write_generated("C06", body)
+    return sites
 
 
 MANIFEST = {
